@@ -12,8 +12,17 @@ ASSUMPTIONS = ['model of the parser stack validated only by this correspondence'
                '"content before the first error is kept" is operationalised conservatively: with p the strict error position and '
                'm the largest m <= p such that s[:m] parses strictly, every top-level node of strict(s[:m]) that is followed by '
                'a later non-whitespace, non-comment node appears unchanged at the same index of the tolerant result, and a last '
-               'text node is kept as a prefix; the exact tolerant result is compared with the model on every case']
-PARTIAL = []
+               'text node is kept as a prefix; the exact tolerant result is compared with the model on every case',
+               'C06_terminates / C06_total / C06_strict_outcome are proved for every string and every context whose '
+               'specifications have at most 10 argument slots (ctx_wf; the default context, regenerated from the repository on '
+               'every run, has 6 and C06_default_ctx_wf re-checks it): this is a limit of the MODEL\'s fixed fuel 8*len+40, '
+               'not of the code (C06_fuel_bound_sharp: an 11-slot context and an 80-character input exhaust it; the real '
+               'parser returns normally); C06_fuel_enough gives the bound for every context',
+               '"bounded time" is proved as termination of the model within an explicit recursion budget; wall-clock time '
+               'of the real code is only guarded by the per-case timeout of the correspondence']
+PARTIAL = ['clauses "equals strict on valid input" (C06_agrees) and "keeps pre-error content" (C06_prefix) are not yet '
+           'stated in Properties/C06.v (marked places; proved by a separate builder); until then they are covered by the '
+           'oracle and the correspondence only']
 REFUTED = []
 CASE_TIMEOUT = 10.0
 case_from_desc = PC.case_from_desc
